@@ -243,7 +243,7 @@ def step (s : State) (toks : List String) : State × String :=
   | "@" :: "user" :: rest => (s, C19User.answer rest)
   | "@" :: "userw" :: rest => (s, C19Wrap.answerCounting rest)
   | "@" :: cmd :: rest =>
-    if ["trop", "trsc", "trneg", "trpow", "recop", "recsc", "recneg", "recpow", "freal", "trreal", "recreal"].contains cmd then
+    if ["trop", "trsc", "trneg", "trpow", "recop", "recsc", "recneg", "recsw", "recpow", "freal", "trreal", "recreal"].contains cmd then
       (s, C19Wrap.answer cmd rest)
     else (s, "bad-op")
   | _ => (s, "bad-op")
